@@ -292,6 +292,8 @@ Variable path : bytes.
 Variable pid : N.
 Variable data : bytes.
 Let tmp := temp_path path pid.
+Lemma eq1 : bytes_eqb path tmp = false. Proof. apply eqb_temp_path. Qed.
+Lemma eq2 : bytes_eqb tmp path = false. Proof. apply eqb_path_temp. Qed.
 
 (* operations that only touch the temporary file or only read *)
 Definition harmless (op : fsop) : Prop :=
@@ -303,12 +305,12 @@ Definition harmless (op : fsop) : Prop :=
 
 Lemma harmless_path op t : harmless op -> apply_op umask op t path = t path.
 Proof.
-  destruct op; cbn; intros H; subst; try reflexivity.
-  - unfold fs_set. rewrite (eqb_temp_path path pid). reflexivity.
-  - destruct (t tmp); [|reflexivity]. unfold fs_set. rewrite (eqb_temp_path path pid). reflexivity.
+  destruct op; cbn [apply_op harmless]; intros H; subst; try reflexivity.
+  - unfold fs_set. rewrite eq1. reflexivity.
+  - destruct (t tmp); [|reflexivity]. unfold fs_set. rewrite eq1. reflexivity.
   - contradiction.
-  - unfold fs_set. rewrite (eqb_temp_path path pid). reflexivity.
-  - destruct (t tmp); [|reflexivity]. unfold fs_set. rewrite (eqb_temp_path path pid). reflexivity.
+  - unfold fs_set. rewrite eq1. reflexivity.
+  - destruct (t tmp); [|reflexivity]. unfold fs_set. rewrite eq1. reflexivity.
 Qed.
 
 Lemma crashes_harmless ops : Forall harmless ops -> forall t t', crashes umask ops t t' -> t' path = t path.
@@ -340,14 +342,23 @@ Lemma prefix_harmless : Forall harmless prefix_ops.
 Proof. repeat constructor. Qed.
 
 (* after the first six operations the temporary file holds exactly the new content *)
+Lemma fs_set_same p f (t : fs) : fs_set p f t p = f.
+Proof. unfold fs_set. rewrite bytes_eqb_refl. reflexivity. Qed.
+Lemma fs_set_other p q f (t : fs) : bytes_eqb q p = false -> fs_set p f t q = t q.
+Proof. unfold fs_set. intros ->. reflexivity. Qed.
+
 Lemma prefix_result t : exists m, run_ops umask prefix_ops t tmp = Some (mkFile data m)
                                   /\ run_ops umask prefix_ops t path = t path.
 Proof.
-  unfold prefix_ops. cbn [run_ops apply_op].
-  unfold fs_set at 2. rewrite bytes_eqb_refl.
-  eexists. split.
-  - unfold fs_set. rewrite bytes_eqb_refl. cbn. reflexivity.
-  - unfold fs_set. rewrite !(eqb_temp_path path pid). reflexivity.
+  unfold prefix_ops. cbn [run_ops].
+  set (t1 := apply_op umask (FOpenW tmp) t).
+  assert (H1 : exists m, t1 tmp = Some (mkFile [] m)).
+  { subst t1. cbn [apply_op]. rewrite fs_set_same. eexists; reflexivity. }
+  assert (H1p : t1 path = t path).
+  { subst t1. cbn [apply_op]. apply fs_set_other. apply eq1. }
+  destruct H1 as [m H1]. exists m. cbn [apply_op]. rewrite H1. cbn [f_data f_mode app]. split.
+  - apply fs_set_same.
+  - rewrite fs_set_other by apply eq1. exact H1p.
 Qed.
 
 Lemma tail_crash t t' ops_tail m0 :
@@ -360,25 +371,24 @@ Proof.
   intros Ht Hops Hc.
   assert (Hren : forall t1, t1 tmp = Some (mkFile data m0) ->
                  apply_op umask (FRename tmp path) t1 path = Some (mkFile data m0)).
-  { intros t1 H1. cbn. rewrite H1. unfold fs_set. rewrite (eqb_temp_path path pid), bytes_eqb_refl. reflexivity. }
+  { intros t1 H1. cbn. rewrite H1. unfold fs_set. rewrite eq1, bytes_eqb_refl. reflexivity. }
   assert (Hchm : forall t1 md mm, t1 path = Some (mkFile data mm) ->
                  apply_op umask (FChmod path md) t1 path = Some (mkFile data md)).
   { intros t1 md mm H1. cbn. rewrite H1. unfold fs_set. rewrite bytes_eqb_refl. reflexivity. }
   assert (Htail : forall t1 md, t1 tmp = Some (mkFile data m0) -> forall t2,
             crashes umask [FRename tmp path; FChmod path md] t1 t2 ->
             t2 path = t1 path \/ exists m, t2 path = Some (mkFile data m)).
-  { intros t1 md H1 t2 Hc2. inversion Hc2; subst.
+  { intros t1 md H1 t2 Hc2. inversion Hc2; subst; clear Hc2.
     - left. reflexivity.
-    - inversion H4; subst.
+    - match goal with H : crashes _ [FChmod _ _] _ _ |- _ => inversion H; subst; clear H end.
       + right. eexists. apply Hren. exact H1.
-      + inversion H5; subst.
-        * right. eexists. eapply Hchm. apply Hren. exact H1.
-        * inversion H6. }
+      + match goal with H : crashes _ [] _ _ |- _ => inversion H; subst; clear H end.
+        right. eexists. eapply Hchm. apply Hren. exact H1. }
   destruct Hops as [->|[md ->]].
   - eapply Htail; eassumption.
-  - inversion Hc; subst.
+  - inversion Hc; subst; clear Hc.
     + left. reflexivity.
-    + cbn [apply_op] in H3. eapply Htail; eassumption.
+    + match goal with H : crashes _ [FRename _ _; _] _ _ |- _ => cbn [apply_op] in H; eapply Htail; eassumption end.
 Qed.
 
 Theorem save_atomic : forall t t',
@@ -410,7 +420,7 @@ Proof.
   rewrite Hrun. destruct (prefix_result t) as (m0 & Htmp & Hpath).
   set (t1 := run_ops umask prefix_ops t) in *.
   destruct (t path) as [f|]; cbn [run_ops apply_op]; rewrite Htmp;
-    unfold fs_set; rewrite ?bytes_eqb_refl, ?(eqb_temp_path path pid); cbn; rewrite ?bytes_eqb_refl; reflexivity.
+    unfold fs_set; rewrite ?bytes_eqb_refl, ?eq1; cbn; rewrite ?bytes_eqb_refl; reflexivity.
 Qed.
 
 (* the executable crash point used by the correspondence is one of the crash states *)
@@ -419,8 +429,8 @@ Proof.
   induction ops as [|op ops IH]; intros n k t.
   - destruct n; cbn; constructor.
   - destruct n as [|n]; cbn [crash_at].
-    + destruct op; try constructor.
-      rewrite <- (firstn_skipn k d) at 1. constructor.
+    + destruct op; try apply cr_here.
+      pose proof (cr_partial umask p (firstn k d) (skipn k d) ops t) as H. rewrite firstn_skipn in H. exact H.
     + constructor. apply IH.
 Qed.
 
@@ -434,3 +444,354 @@ Proof.
   cbn [app crash_at apply_op]. unfold fs_set at 1. rewrite bytes_eqb_refl. reflexivity.
 Qed.
 End Atomic.
+
+(* ------------------------------------------------------------------------------------------ *)
+(* what reaches the disk when encryption is on and a password is set                           *)
+(* ------------------------------------------------------------------------------------------ *)
+(* The public part of an account: no field holds a plaintext seed or private key.  For an account that is
+   already encrypted in memory the stored ciphertext strings are part of it. *)
+Record pub_account := mkPub {
+  p_ledger : bytes; p_name : bytes; p_pub : bytes; p_encrypted : bool;
+  p_iv_seed : option bytes; p_iv_priv : option bytes;
+  p_addrgen : jv; p_modified : Z;
+  p_certs : jv;                       (* channel keys: written as they are, encrypted wallet or not *)
+  p_has_seed : bool; p_has_key : bool;
+  p_stored_seed : bytes; p_stored_pks : bytes
+}.
+
+(* the private key string to_dict starts from *)
+Definition key_string (a : account) : bytes :=
+  if a_encrypted a then a_pks a else match a_priv a with Some x => x | None => a_pks a end.
+
+Definition pub_of (a : account) : pub_account :=
+  mkPub (a_ledger a) (a_name a) (a_pub a) (a_encrypted a) (a_iv_seed a) (a_iv_priv a) (a_addrgen a) (a_modified a)
+        (a_certs a) (nonempty (a_seed a)) (nonempty (key_string a))
+        (if a_encrypted a then a_seed a else []) (if a_encrypted a then a_pks a else []).
+
+Section Sealed.
+Variable P : prims.
+
+(* the account dict computed from the public part and two ciphertext oracles iv |-> E key iv secret *)
+Definition pub_to_dict (rnd : list bytes) (pa : pub_account) (es ep : bytes -> bytes) : jv * list bytes :=
+  let '(pks, rnd1) :=
+    if p_encrypted pa then (p_stored_pks pa, rnd)
+    else if p_has_key pa then let (iv, rnd1) := get_iv (p_iv_priv pa) rnd in (b64e P (iv ++ ep iv), rnd1)
+    else ([], rnd) in
+  let '(seed, rnd2) :=
+    if p_encrypted pa then (p_stored_seed pa, rnd1)
+    else if p_has_seed pa then let (iv, rnd2) := get_iv (p_iv_seed pa) rnd1 in (b64e P (iv ++ es iv), rnd2)
+    else ([], rnd1) in
+  (JO [(c_ledger, JS (p_ledger pa)); (c_name, JS (p_name pa)); (c_seed, JS seed);
+       (c_encrypted, JB true);
+       (c_private_key, JS pks); (c_public_key, JS (p_pub pa));
+       (c_address_generator, p_addrgen pa); (c_modified_on, JN (p_modified pa));
+       (c_certificates, p_certs pa)], rnd2).
+
+Definition sealed_view := (pub_account * (bytes -> bytes) * (bytes -> bytes))%type.
+
+Fixpoint pubs_to_dicts (rnd : list bytes) (l : list sealed_view) : list jv :=
+  match l with
+  | [] => []
+  | (pa, es, ep) :: r => let (d, rnd1) := pub_to_dict rnd pa es ep in d :: pubs_to_dicts rnd1 r
+  end.
+
+Definition public_image (name : bytes) (prefs : list (bytes * jv)) (rnd : list bytes) (l : list sealed_view) : jv :=
+  JO [(c_version, JN 1); (c_name, JS name); (c_preferences, JO prefs); (c_accounts, JA (pubs_to_dicts rnd l))].
+
+Definition seal (pw : bytes) (a : account) : sealed_view :=
+  (pub_of a, fun iv => E P (kdf P pw) iv (a_seed a), fun iv => E P (kdf P pw) iv (key_string a)).
+
+Lemma nonempty_false b : nonempty b = false -> b = [].
+Proof. destruct b; [reflexivity|discriminate]. Qed.
+
+Lemma account_to_dict_sealed pw rnd a : nonempty pw = true ->
+  (fst (fst (account_to_dict P (Some pw) rnd a)), snd (account_to_dict P (Some pw) rnd a)) =
+  pub_to_dict rnd (pub_of a) (fun iv => E P (kdf P pw) iv (a_seed a)) (fun iv => E P (kdf P pw) iv (key_string a)).
+Proof.
+  intros Hpw. unfold account_to_dict, pub_to_dict, pub_of, key_string, aes_encrypt.
+  cbn [p_encrypted p_has_key p_has_seed p_iv_priv p_iv_seed p_stored_pks p_stored_seed p_ledger p_name p_pub
+       p_addrgen p_modified p_certs].
+  rewrite Hpw.
+  destruct (a_encrypted a); cbn [negb andb orb].
+  - reflexivity.
+  - set (ks := match a_priv a with Some x => x | None => a_pks a end).
+    destruct (nonempty ks) eqn:Hk.
+    + destruct (get_iv (a_iv_priv a) rnd) as [iv1 rnd1].
+      destruct (nonempty (a_seed a)) eqn:Hs.
+      * destruct (get_iv (a_iv_seed a) rnd1) as [iv2 rnd2]. reflexivity.
+      * rewrite (nonempty_false _ Hs). reflexivity.
+    + rewrite (nonempty_false _ Hk).
+      destruct (nonempty (a_seed a)) eqn:Hs.
+      * destruct (get_iv (a_iv_seed a) rnd) as [iv2 rnd2]. reflexivity.
+      * rewrite (nonempty_false _ Hs). reflexivity.
+Qed.
+
+Lemma accounts_to_dict_sealed pw : nonempty pw = true -> forall l rnd,
+  fst (fst (accounts_to_dict P (Some pw) rnd l)) = pubs_to_dicts rnd (map (seal pw) l).
+Proof.
+  intros Hpw. induction l as [|a l IH]; intros rnd; [reflexivity|].
+  cbn [accounts_to_dict map pubs_to_dicts seal].
+  pose proof (account_to_dict_sealed pw rnd a Hpw) as H.
+  destruct (account_to_dict P (Some pw) rnd a) as [[d a'] rnd1]. cbn [fst snd] in H.
+  fold (seal pw a). unfold seal at 1. rewrite <- H.
+  specialize (IH rnd1).
+  destruct (accounts_to_dict P (Some pw) rnd1 l) as [[ds r'] rnd2]. cbn [fst] in *.
+  rewrite IH. reflexivity.
+Qed.
+
+(* the dict handed to storage.write by Wallet.save when the encrypt-on-disk preference is on and a non-blank
+   password is set: a function of name, preferences, the init-vector supply and the sealed views *)
+Theorem no_plaintext_on_disk : forall w pw ts rnd,
+  pref_on w = true -> w_pw w = Some pw -> pw <> [] ->
+  fst (save_dict P ts rnd w) = public_image (w_name w) (w_prefs w) rnd (map (seal pw) (w_accounts w)).
+Proof.
+  intros w pw ts rnd Hon Hpw Hne.
+  assert (Hn : nonempty pw = true) by (destruct pw; [congruence|reflexivity]).
+  unfold save_dict. rewrite Hon, Hpw. unfold wallet_to_dict, public_image.
+  pose proof (accounts_to_dict_sealed pw Hn (w_accounts w) rnd) as H.
+  destruct (accounts_to_dict P (Some pw) rnd (w_accounts w)) as [[ds accs] r]. cbn [fst] in *.
+  rewrite H. reflexivity.
+Qed.
+End Sealed.
+
+(* consequence, for ANY cipher E (no decryption hypothesis is involved): two wallets with the same public parts
+   whose secrets have the same ciphertexts give byte-identical files. *)
+Definition same_sealed (v1 v2 : sealed_view) : Prop :=
+  fst (fst v1) = fst (fst v2) /\ (forall iv, snd (fst v1) iv = snd (fst v2) iv) /\ (forall iv, snd v1 iv = snd v2 iv).
+
+Lemma pub_to_dict_ext P rnd pa es ep es' ep' : (forall iv, es iv = es' iv) -> (forall iv, ep iv = ep' iv) ->
+  pub_to_dict P rnd pa es ep = pub_to_dict P rnd pa es' ep'.
+Proof.
+  intros Hs Hp. unfold pub_to_dict.
+  destruct (p_encrypted pa); [reflexivity|].
+  destruct (p_has_key pa).
+  - destruct (get_iv (p_iv_priv pa) rnd) as [iv1 rnd1]. rewrite Hp.
+    destruct (p_has_seed pa); [|reflexivity].
+    destruct (get_iv (p_iv_seed pa) rnd1) as [iv2 rnd2]. rewrite Hs. reflexivity.
+  - destruct (p_has_seed pa); [|reflexivity].
+    destruct (get_iv (p_iv_seed pa) rnd) as [iv2 rnd2]. rewrite Hs. reflexivity.
+Qed.
+
+Lemma pubs_to_dicts_ext P : forall l1 l2 rnd, Forall2 same_sealed l1 l2 ->
+  pubs_to_dicts P rnd l1 = pubs_to_dicts P rnd l2.
+Proof.
+  intros l1 l2 rnd H. revert rnd. induction H as [|v1 v2 l1 l2 Hv _ IH]; intros rnd; [reflexivity|].
+  destruct v1 as [[pa1 es1] ep1], v2 as [[pa2 es2] ep2]. destruct Hv as (Hpa & Hs & Hp). cbn in Hpa, Hs, Hp. subst pa2.
+  cbn [pubs_to_dicts]. rewrite (pub_to_dict_ext P rnd pa1 es1 ep1 es2 ep2 Hs Hp).
+  destruct (pub_to_dict P rnd pa1 es2 ep2) as [d rnd1]. rewrite IH. reflexivity.
+Qed.
+
+Theorem file_depends_on_ciphertexts_only : forall P w1 w2 pw ts rnd,
+  pref_on w1 = true -> pref_on w2 = true -> w_pw w1 = Some pw -> w_pw w2 = Some pw -> pw <> [] ->
+  w_name w1 = w_name w2 -> w_prefs w1 = w_prefs w2 ->
+  Forall2 same_sealed (map (seal P pw) (w_accounts w1)) (map (seal P pw) (w_accounts w2)) ->
+  render_file P (fst (save_dict P ts rnd w1)) = render_file P (fst (save_dict P ts rnd w2)).
+Proof.
+  intros P w1 w2 pw ts rnd H1 H2 Hp1 Hp2 Hne Hn Hpr Hs.
+  rewrite (no_plaintext_on_disk P w1 pw ts rnd H1 Hp1 Hne), (no_plaintext_on_disk P w2 pw ts rnd H2 Hp2 Hne).
+  unfold public_image. rewrite Hn, Hpr, (pubs_to_dicts_ext P _ _ rnd Hs). reflexivity.
+Qed.
+
+(* ------------------------------------------------------------------------------------------ *)
+(* pack / unpack                                                                               *)
+(* ------------------------------------------------------------------------------------------ *)
+Section Pack.
+Variable P : prims.
+Hypothesis H_DE : forall k iv p, D P k iv (E P k iv p) = DOk p.
+Hypothesis H_b64 : forall x, b64d P (b64e P x) = Some x.
+Hypothesis H_z : forall x, zd P (zc P x) = ZOk x.
+
+(* b's:8192:16:1:' + rest, split at most four times: the rest stays whole whatever bytes (colons included) it holds *)
+Lemma split_header rest :
+  split_colon 4 (better_header ++ rest) =
+    [[byte_of_N 115]; dec_of_N 8192; dec_of_N 16; dec_of_N 1; rest].
+Proof. vm_compute. reflexivity. Qed.
+
+Lemma better_roundtrip pw v iv : len16 iv ->
+  better_aes_decrypt P pw (better_aes_encrypt P pw v iv) = Ok v.
+Proof.
+  intros Hl. unfold better_aes_decrypt, better_aes_encrypt. rewrite H_b64, split_header.
+  assert (H1 : py_int (dec_of_N 8192) = Some 8192) by (vm_compute; reflexivity).
+  assert (H2 : py_int (dec_of_N 16) = Some 16) by (vm_compute; reflexivity).
+  assert (H3 : py_int (dec_of_N 1) = Some 1) by (vm_compute; reflexivity).
+  rewrite H1, H2, H3.
+  rewrite (firstn_app_exact' 16 iv) by (symmetry; exact Hl).
+  rewrite (skipn_app_exact' 16 iv) by (symmetry; exact Hl).
+  rewrite H_DE. reflexivity.
+Qed.
+
+Theorem pack_unpack : forall w pw iv, len16 iv -> is_locked w = false ->
+  exists packed, pack P pw iv w = Ok packed /\ unpack P pw packed = Ok (to_json P w).
+Proof.
+  intros w pw iv Hl Hlk. unfold pack. rewrite Hlk. eexists. split; [reflexivity|].
+  unfold unpack. rewrite (better_roundtrip pw _ iv Hl), H_z. reflexivity.
+Qed.
+
+Theorem pack_refuses_locked : forall w pw iv, is_locked w = true -> pack P pw iv w = Err EAssertion.
+Proof. intros w pw iv H. unfold pack. rewrite H. reflexivity. Qed.
+End Pack.
+
+(* ------------------------------------------------------------------------------------------ *)
+(* histories: whatever the wallet process does, and wherever it is killed, the file on disk is  *)
+(* the complete rendering of a dict that some save handed to storage.write (or there is none)  *)
+(* ------------------------------------------------------------------------------------------ *)
+Lemma crash_at_app umask k ops1 : forall ops2 n t,
+  crash_at umask n k (ops1 ++ ops2) t =
+    if Nat.ltb n (length ops1) then crash_at umask n k ops1 t
+    else crash_at umask (n - length ops1) k ops2 (run_ops umask ops1 t).
+Proof.
+  induction ops1 as [|op ops1 IH]; intros ops2 n t.
+  - cbn. rewrite Nat.sub_0_r. reflexivity.
+  - destruct n as [|n].
+    + cbn [length Nat.ltb Nat.leb app crash_at]. destruct op; reflexivity.
+    + cbn [app crash_at length run_ops]. rewrite IH. reflexivity.
+Qed.
+
+Section CrashPath.
+Variable umask : N.
+Variable path : bytes.
+Variable pid : N.
+Variable data : bytes.
+
+Lemma crash_at_path t n k :
+  fdata (crash_at umask n k (storage_write path pid data t) t path) =
+    if Nat.ltb (match t path with Some _ => 7 | None => 6 end) n then Some data else fdata (t path).
+Proof.
+  unfold storage_write.
+  change [FOpenW (temp_path path pid); FWrite (temp_path path pid) data; FFlush (temp_path path pid);
+          FFsync (temp_path path pid); FClose (temp_path path pid); FExists path]
+    with (prefix_ops path pid data).
+  rewrite crash_at_app. change (length (prefix_ops path pid data)) with 6%nat.
+  destruct (Nat.ltb n 6) eqn:Hn.
+  - apply Nat.ltb_lt in Hn.
+    rewrite (crashes_harmless umask path pid _ (prefix_harmless path pid data) _ _
+               (crash_at_crashes umask _ n k t)).
+    destruct (t path); (destruct (Nat.ltb _ n) eqn:Hl; [apply Nat.ltb_lt in Hl; lia|reflexivity]).
+  - apply Nat.ltb_ge in Hn.
+    destruct (prefix_result umask path pid data t) as (m0 & Htmp & Hpath).
+    set (t1 := run_ops umask (prefix_ops path pid data) t) in *.
+    assert (Hren : apply_op umask (FRename (temp_path path pid) path) t1 path = Some (mkFile data m0)).
+    { cbn [apply_op]. rewrite Htmp. rewrite fs_set_other by apply eqb_temp_path. apply fs_set_same. }
+    assert (Hchm : forall md, apply_op umask (FChmod path md) (apply_op umask (FRename (temp_path path pid) path) t1) path
+                              = Some (mkFile data md)).
+    { intros md. cbn [apply_op] in *. rewrite Hren. apply fs_set_same. }
+    destruct (t path) as [f|] eqn:Hf.
+    + destruct (n - 6)%nat as [|[|[|j]]] eqn:Hj; cbn [crash_at]; change (apply_op umask (FStat path) t1) with t1.
+      * rewrite Hpath. destruct (Nat.ltb 7 n) eqn:Hl; [apply Nat.ltb_lt in Hl; lia|reflexivity].
+      * rewrite Hpath. destruct (Nat.ltb 7 n) eqn:Hl; [apply Nat.ltb_lt in Hl; lia|reflexivity].
+      * rewrite Hren. destruct (Nat.ltb 7 n) eqn:Hl; [reflexivity|apply Nat.ltb_ge in Hl; lia].
+      * assert (Hdone : forall j t2, crash_at umask j k [] t2 = t2) by (intros [|?] ?; reflexivity).
+        rewrite Hdone, Hchm. destruct (Nat.ltb 7 n) eqn:Hl; [reflexivity|apply Nat.ltb_ge in Hl; lia].
+    + destruct (n - 6)%nat as [|[|j]] eqn:Hj; cbn [crash_at].
+      * rewrite Hpath. destruct (Nat.ltb 6 n) eqn:Hl; [apply Nat.ltb_lt in Hl; lia|reflexivity].
+      * rewrite Hren. destruct (Nat.ltb 6 n) eqn:Hl; [reflexivity|apply Nat.ltb_ge in Hl; lia].
+      * assert (Hdone : forall j t2, crash_at umask j k [] t2 = t2) by (intros [|?] ?; reflexivity).
+        rewrite Hdone, Hchm. destruct (Nat.ltb 6 n) eqn:Hl; [reflexivity|apply Nat.ltb_ge in Hl; lia].
+Qed.
+End CrashPath.
+
+Section MachineInv.
+Variable P : prims.
+Variable path : bytes.
+Variable umask : N.
+
+Definition coherent (st : mstate) : Prop := fdata (m_fs st path) = option_map (render_file P) (m_img st).
+
+Lemma do_save_coherent ts rnd pid st : coherent (do_save P path umask ts rnd pid st).
+Proof.
+  unfold coherent, do_save. destruct (save_dict P ts rnd (m_w st)) as [img w'].
+  cbn [m_fs m_img]. rewrite save_completes. reflexivity.
+Qed.
+
+Lemma step_coherent op st : coherent st -> coherent (snd (step P path umask op st)).
+Proof.
+  intros Hc. destruct op; cbn [step].
+  - destruct (is_locked (m_w st)); [exact Hc|]. destruct (nonempty pw); [|exact Hc]. apply do_save_coherent.
+  - destruct (is_locked (m_w st)); [exact Hc|]. apply do_save_coherent.
+  - destruct (lock P rnd (m_w st)); exact Hc.
+  - destruct (unlock P pw (m_w st)). exact Hc.
+  - apply do_save_coherent.
+  - destruct (save_dict P ts rnd (m_w st)) as [img w'].
+    match goal with |- coherent (snd (match reload P ?i with _ => _ end)) => destruct (reload P i) end; [|exact Hc].
+    cbn [snd]. unfold coherent. cbn [m_fs m_img]. rewrite crash_at_path.
+    destruct (Nat.ltb _ n); [reflexivity|exact Hc].
+  - destruct (reload P (m_img st)); exact Hc.
+  - exact Hc.
+  - exact Hc.
+  - destruct (nth_error (w_accounts (m_w st)) i); [|exact Hc]. destruct (a_encrypted a); exact Hc.
+  - destruct (nth_error (w_accounts (m_w st)) i); [|exact Hc]. destruct (a_encrypted a); [|exact Hc].
+    destruct (account_decrypt P pw a). exact Hc.
+  - exact Hc.
+Qed.
+
+Theorem file_always_complete : forall ops st, coherent st -> coherent (run P path umask ops st).
+Proof. induction ops as [|op ops IH]; intros st H; [exact H|]. cbn [run]. apply IH. apply step_coherent. exact H. Qed.
+End MachineInv.
+
+(* ------------------------------------------------------------------------------------------ *)
+(* a toy instance of the primitives (for non-vacuity examples only): E key iv p = key ++ p     *)
+(* ------------------------------------------------------------------------------------------ *)
+Fixpoint strip_prefix (k c : bytes) : option bytes :=
+  match k, c with
+  | [], _ => Some c
+  | x :: k', y :: c' => if byte_eqb x y then strip_prefix k' c' else None
+  | _ :: _, [] => None
+  end.
+
+Lemma strip_prefix_app k p : strip_prefix k (k ++ p) = Some p.
+Proof. induction k as [|x k IH]; cbn; [reflexivity|]. rewrite byte_eqb_refl. exact IH. Qed.
+
+Definition toy_bad_seed : bytes := [byte_of_N 98; byte_of_N 97; byte_of_N 100].   (* "bad": not in the toy word list *)
+
+Definition toy : prims := mkPrims
+  (fun pw => byte_of_N 75 :: pw)
+  (fun k iv p => k ++ p)
+  (fun k iv c => match strip_prefix k c with Some p => DOk p | None => DBadPad end)
+  (fun x => x) (fun x => Some x)
+  (fun _ => true)
+  (fun sd => negb (bytes_eqb sd toy_bad_seed))
+  (fun x => XOk x)
+  (fun x => byte_of_N 34 :: x ++ [byte_of_N 34])
+  (fun pw salt _ _ _ => pw ++ salt)
+  (fun x => x) (fun x => ZOk x).
+
+Lemma toy_DE : forall k iv p, D toy k iv (E toy k iv p) = DOk p.
+Proof. intros. cbn. rewrite strip_prefix_app. reflexivity. Qed.
+Lemma toy_b64 : forall x, b64d toy (b64e toy x) = Some x.
+Proof. reflexivity. Qed.
+Lemma toy_b64_nil : b64d toy [] = Some [].
+Proof. reflexivity. Qed.
+Lemma toy_z : forall x, zd toy (zc toy x) = ZOk x.
+Proof. reflexivity. Qed.
+
+Definition bN (l : list N) : bytes := map byte_of_N l.
+Definition iv_a : bytes := repeat (byte_of_N 1) 16.
+Definition iv_b : bytes := repeat (byte_of_N 2) 16.
+Definition iv_c : bytes := repeat (byte_of_N 3) 16.
+
+(* a seeded account with its private key, a key-only account, a watch-only account *)
+Definition ex_seeded : account :=
+  mkAccount (bN [108]) (bN [65]) (bN [115; 101; 101; 100]) [] (Some (bN [120; 112; 114; 118])) (bN [120; 112; 117; 98])
+            false None None (JO []) 5 (JO [(bN [99], JS (bN [80; 69; 77]))]).
+Definition ex_keyonly : account :=
+  mkAccount (bN [108]) (bN [66]) [] (bN [120; 107]) (Some (bN [120; 107])) (bN [120; 112; 50]) false None None (JO []) 6 (JO []).
+Definition ex_watch : account :=
+  mkAccount (bN [108]) (bN [67]) [] [] None (bN [120; 112; 51]) false None None (JO []) 7 (JO []).
+Definition ex_badseed : account :=
+  mkAccount (bN [108]) (bN [68]) toy_bad_seed [] (Some (bN [120; 52])) (bN [120; 112; 52]) false None None (JO []) 8 (JO []).
+
+Definition ex_pw : bytes := bN [112; 119].
+Definition ex_pw2 : bytes := bN [113].
+Definition ex_wallet : wallet := mkWallet (bN [87]) [] [ex_seeded; ex_keyonly; ex_watch] (Some ex_pw).
+
+Lemma ex_wallet_wf : wf_wallet toy ex_wallet.
+Proof.
+  unfold wf_wallet, ex_wallet. cbn [w_accounts].
+  repeat constructor; cbn; try reflexivity; try discriminate;
+    try (intros x Hx; injection Hx as <-; repeat split; reflexivity);
+    try (intros Hx; discriminate Hx).
+  all: cbn in *; match goal with H : Some _ = Some _ |- _ => injection H as <- end; reflexivity.
+Qed.
+
+Lemma ex_rnd_ok : Forall len16 [iv_a; iv_b; iv_c].
+Proof. repeat constructor. Qed.
